@@ -853,6 +853,27 @@ func init() {
 				}
 			}
 			if target == nil {
+				// no parameter match: a parameterless closure that captures a variable of every given type
+				best := 0
+				for _, af := range parent.AnonFuncs {
+					if len(af.Params) != 0 {
+						continue
+					}
+					n := 0
+					for _, v := range vals {
+						for _, fv := range af.FreeVars {
+							if v.t != nil && types.Identical(v.t, fv.Type().(*types.Pointer).Elem()) {
+								n++
+								break
+							}
+						}
+					}
+					if n == len(vals) && len(af.FreeVars) > best {
+						best, target = len(af.FreeVars), af
+					}
+				}
+			}
+			if target == nil {
 				ex.inconclusive("vcallAnon: no anonymous function of " + pname + " takes these arguments")
 			}
 			fvs := make([]Value, len(target.FreeVars))
